@@ -150,7 +150,7 @@ def run_tlc(module: str, cfg: str, *, workdir: str, env: dict | None = None, wor
             res.violated.append("POSTCONDITION")
     res.raw_tail = "\n".join(out.splitlines()[-60:])
     finished = "Model checking completed" in out or "Finished in" in out
-    has_error = "Error:" in out or "TLC threw an unexpected exception" in out
+    has_error = any(ln.startswith("Error:") for ln in out.splitlines()) or "TLC threw an unexpected exception" in out
     if res.violated:
         res.ok = False
     elif has_error or not finished or p.returncode not in (0,):
